@@ -473,10 +473,11 @@ theorem row_toList_float {a : Expr} {rest : List Expr} {kv : Pair} {c c0 c1 c2 :
     rowBody .toList (a :: rest) kv c = (.ok (.floatList ((v :: vs).map (toFloatV · F64.zero))), c2) := by
   rw [rowBody]; simp [M.bind_ok hf, M.bind_ok h0, M.bind_ok h1, hi]
 
-/-- the vector bodies of join / list / int_list / float_list ARE the row body, pair by pair -/
+/-- the vector bodies of join / list / int_list / float_list ARE the row body, pair by pair, run
+    with a nil context; the chunk's context is left alone -/
 theorem vec_rowwise (b : Body) (hb : b = .join ∨ b = .toList ∨ b = .intList ∨ b = .floatList)
     (args : List Expr) (chunk : List Pair) :
-    vecBody b args chunk = forPairs (rowBody b args) chunk := by
+    vecBody b args chunk = rowWiseNoCtx (rowBody b args) chunk := by
   rcases hb with rfl | rfl | rfl | rfl <;> rw [vecBody]
 
 /-! ### distances -/
